@@ -49,7 +49,7 @@ fn cmd_c16_rq2sql(req: &Value) -> Value {
 
 // c16_trace {src}: source -> PL -> RQ with the compiler's debug log on; returns the RQ as JSON together with the lines that
 // hook `lowerer-op-trace` (cfg prqlc_verif, semantic/lowering.rs) logged as `verif:lowerer_op {"op":..,"d":..}`, in order:
-//   {ok: rq_json, ops: [{op, d}, ..]} | {err: [...], ops: [...]}
+//   {ok: rq_json, ops: [{op, d}, ..], toposort: [{dependencies, main, order}]} | {err: [...], ops: [...], toposort: [...]}
 // A panic propagates to main's guard (the log it leaves behind is discarded by the next log_start).
 fn cmd_c16_trace(req: &Value) -> Value {
     const PREFIX: &str = "verif:lowerer_op ";
@@ -58,6 +58,7 @@ fn cmd_c16_trace(req: &Value) -> Value {
     let r = prqlc::prql_to_pl(s(req, "src")).and_then(prqlc::pl_to_rq);
     let log = prqlc::debug::log_finish();
     let mut ops: Vec<Value> = vec![];
+    let mut topo: Vec<Value> = vec![];
     let mut bad: Vec<String> = vec![];
     if let Some(log) = log {
         if let Ok(Value::Object(m)) = serde_json::to_value(&log) {
@@ -67,6 +68,12 @@ fn cmd_c16_trace(req: &Value) -> Value {
                         if let Some(rest) = text.strip_prefix(PREFIX) {
                             match serde_json::from_str::<Value>(rest) {
                                 Ok(v) => ops.push(v),
+                                Err(e) => bad.push(format!("{e}: {rest}")),
+                            }
+                        } else if let Some(rest) = text.strip_prefix("verif:toposort_tables ") {
+                            // hooks/toposort-tables.diff: input and output of toposort_tables
+                            match serde_json::from_str::<Value>(rest) {
+                                Ok(v) => topo.push(v),
                                 Err(e) => bad.push(format!("{e}: {rest}")),
                             }
                         }
@@ -83,6 +90,7 @@ fn cmd_c16_trace(req: &Value) -> Value {
         Err(e) => errs(e),
     };
     out["ops"] = json!(ops);
+    out["toposort"] = json!(topo);
     if !bad.is_empty() {
         out["bad_ops"] = json!(bad);
     }
